@@ -19,6 +19,8 @@ type adversary struct {
 	byz  []int64
 	hon  []int64
 	vals []int64 // byzantine-invented values
+	// compareOn: the honest members run the opt-in comparison of proposals with their local data
+	compareOn bool
 }
 
 type rv struct{ r, v int64 }
@@ -184,7 +186,39 @@ func (a *adversary) prepareQuorum(p pools, k rv) []*qbftsim.M {
 // act performs one adversary action. It returns the template label.
 func (a *adversary) act(t *rapid.T) string {
 	p := a.observe()
-	switch rapid.IntRange(0, 10).Draw(t, "template") {
+	tmpl := rapid.IntRange(0, 10).Draw(t, "template")
+	if a.compareOn && rapid.IntRange(0, 3).Draw(t, "afterCompareFailure") == 0 {
+		tmpl = 11
+	}
+	switch tmpl {
+	case 11: // a member whose comparison rejected round k's proposal takes round k+1's proposal without justification
+		var ks []int64
+		a.s.Lock()
+		for _, h := range a.hon {
+			if k := a.s.Procs[h].CompareFailRound; k > 0 {
+				ks = append(ks, k)
+			}
+		}
+		a.s.Unlock()
+		if len(ks) == 0 {
+			return a.vote(t, p)
+		}
+		r := ks[rapid.IntRange(0, len(ks)-1).Draw(t, "failedRound")] + 1
+		b := a.pickByz(t) // leader of that round or not
+		v := a.pickValue(t, p)
+		var just []*qbftsim.M
+		if rapid.Bool().Draw(t, "withJustification") {
+			just, _ = a.qrcJustification(t, p, r)
+		}
+		a.s.Inject(a.mk(cq.MsgPrePrepare, b, r, v, 0, 0, just, "ppAfterCompareFailure"), a.hon)
+		for _, typ := range []cq.MsgType{cq.MsgPrepare, cq.MsgCommit} {
+			if rapid.IntRange(0, 3).Draw(t, "followUp") != 0 {
+				for _, m := range a.byzMsgs(typ, r, v) {
+					a.s.Inject(m, a.hon)
+				}
+			}
+		}
+		return "preprepare_after_compare_failure"
 	case 0: // (equivocating) PRE-PREPARE for round 1
 		for _, b := range a.byz {
 			if a.s.LeaderFn(a.s.Inst, 1, b) {
